@@ -204,3 +204,73 @@ func VerifC03Batcher() {
 	}
 	vReach("end")
 }
+
+// VerifC03QueueBatch: the queue stage and the batcher stage composed as QueueBatch composes them
+// (asyncQueue over the in-memory queue feeding the batcher, or the disabled batcher), then Shutdown.
+func VerifC03QueueBatch() {
+	K := vParam("K")
+	led := &vbLedger{offered: map[int]int{}, exported: map[int]int{}, failed: map[int]int{}, doneCalls: map[int]int{}, doneErr: map[int]error{}, shutdownInterrupted: map[int]bool{}}
+	vbUnderfill = false
+	nOutcomes := vParam("outcomes")
+	next := func(_ context.Context, rq request.Request) error {
+		r := rq.(*vbReq)
+		vAssert(!led.stopped, "queue-batch/no-export-begins-after-shutdown-returned")
+		led.exports++
+		led.inFlight = append(led.inFlight, r)
+		vYield()
+		fail := nOutcomes > 1 && vChoice("export-fails", 2) == 1
+		for i, x := range led.inFlight {
+			if x == r {
+				led.inFlight = append(led.inFlight[:i:i], led.inFlight[i+1:]...)
+				break
+			}
+		}
+		for _, p := range r.parts {
+			if fail {
+				led.failed[p.origin] += p.n
+			} else {
+				led.exported[p.origin] += p.n
+			}
+		}
+		if fail {
+			return vbErrExport
+		}
+		return nil
+	}
+	var b Batcher[request.Request]
+	consumers := 1 + vChoice("consumers", vParam("maxConsumers"))
+	if vParam("batching") == 1 {
+		cfg := BatchConfig{FlushTimeout: 0, MinSize: vNondetInt64("min_size"), MaxSize: vNondetInt64("max_size")}
+		vAssume(cfg.MinSize >= 0 && cfg.MaxSize >= 0 && (cfg.MaxSize == 0 || cfg.MaxSize >= cfg.MinSize))
+		vAssume(cfg.MinSize <= 4 && cfg.MaxSize <= 4)
+		consumers = 1
+		b = newDefaultBatcher(cfg, batcherSettings[request.Request]{sizerType: request.SizerTypeItems, sizer: request.NewItemsSizer(), next: next, maxWorkers: 1})
+	} else {
+		b = newDisabledBatcher[request.Request](next)
+	}
+	capacity := int64(K) * 3
+	q := newAsyncQueue(newMemoryQueue[request.Request](memoryQueueSettings[request.Request]{sizer: request.NewItemsSizer(), capacity: capacity}), consumers, b.Consume)
+	qb := &QueueBatch{queue: q, batcher: b}
+	vAssert(qb.Start(context.Background(), nil) == nil, "queue-batch/start-ok")
+	accepted := map[int]bool{}
+	for i := 0; i < K; i++ {
+		n := 1 + i%2
+		led.offered[i] = n
+		if qb.Send(context.Background(), &vbReq{parts: []vbPart{{origin: i, n: n}}}) == nil {
+			accepted[i] = true // enqueue completed before shutdown is requested
+		}
+	}
+	vAssert(qb.Shutdown(context.Background()) == nil, "queue-batch/shutdown-ok")
+	led.stopped = true
+	vAssert(len(led.inFlight) == 0, "queue-batch/all-export-calls-returned-when-shutdown-returns")
+	for i := 0; i < K; i++ {
+		if accepted[i] {
+			vAssert(led.exported[i]+led.failed[i] == led.offered[i], "queue-batch/every-accepted-request-attempted-exactly-once-by-shutdown")
+		} else {
+			vAssert(led.exported[i]+led.failed[i] == 0, "queue-batch/refused-request-never-exported")
+		}
+	}
+	vSettle()
+	vAssert(vLiveGoroutines() == 0, "queue-batch/no-helper-goroutine-left-running")
+	vReach("end")
+}
